@@ -22,7 +22,8 @@ EXTENDS Rat, Sequences, TLC, Json, FiniteSets
 CONSTANTS MaxDepth,     \* length of the emitted paths
           PointIdx,     \* subset of DOMAIN PythagoreanPoints
           Octants,      \* subset of 1..8 (sign patterns)
-          VecIdx        \* subset of DOMAIN TestVectors
+          VecIdx,       \* subset of DOMAIN TestVectors
+          Forms         \* subset of {"plain", "cross", "dot"}: how the attached vector is written (see Init)
 
 VARIABLES pos, vec, psys, vsys, path, start
 vars == <<pos, vec, psys, vsys, path, start>>
@@ -40,11 +41,23 @@ Signed(p, o) == <<SignTable[o][1] * p[1], SignTable[o][2] * p[2], SignTable[o][3
 Snapshot == [pos |-> pos, vec |-> vec, psys |-> psys, vsys |-> vsys]
 Step(act, to) == [act |-> act, to |-> to, pos |-> pos', vec |-> vec', psys |-> psys', vsys |-> vsys']
 
+\* The attached vector is handed to the library as an expression over the base vectors of its system:
+\*   "plain"  A                 a linear combination of base vectors,
+\*   "cross"  A x B             base vectors nested inside a cross product,
+\*   "dot"    (A . B) B         base vectors nested inside a scalar component,
+\* with A, B the Cartesian data below; vec is the Cartesian value of the expression.
+Dot3(p, q)   == p[1] * q[1] + p[2] * q[2] + p[3] * q[3]
+Cross3(p, q) == <<p[2] * q[3] - p[3] * q[2], p[3] * q[1] - p[1] * q[3], p[1] * q[2] - p[2] * q[1]>>
+FormValue(f, A, B) == IF f = "plain" THEN A ELSE IF f = "cross" THEN Cross3(A, B)
+                      ELSE <<Dot3(A, B) * B[1], Dot3(A, B) * B[2], Dot3(A, B) * B[3]>>
+
 Init == /\ \E i \in PointIdx, o \in Octants : pos = Signed(PythagoreanPoints[i], o)
-        /\ \E i \in VecIdx : vec = TestVectors[i]
         /\ psys \in Systems /\ vsys = psys
         /\ path = <<>>
-        /\ start = Snapshot
+        /\ \E i \in VecIdx, f \in Forms :
+             LET A == TestVectors[i]  B == TestVectors[(i % Len(TestVectors)) + 1] IN
+               /\ vec = FormValue(f, A, B)
+               /\ start = [pos |-> pos, vec |-> vec, psys |-> psys, vsys |-> vsys, form |-> f, opa |-> A, opb |-> B]
 
 ConvertPoint(to) ==
   /\ Len(path) < MaxDepth
